@@ -247,9 +247,18 @@ func envOr(k, d string) string {
 // Prepare writes the job's disk image into the worker's private directory.
 func (w *Worker) Prepare(j *Job) {
 	if !j.Keep {
-		for f := range w.files {
-			if _, again := j.Files[f]; !again {
-				os.RemoveAll(filepath.Join(w.dir, firstSeg(f)))
+		// a new scenario starts from an empty disk: everything the previous one wrote or the
+		// node itself created (output files, a cache a future version might keep) goes away
+		if ents, err := os.ReadDir(w.dir); err == nil {
+			for _, e := range ents {
+				n := e.Name()
+				if n == ".ti-config" || strings.HasPrefix(n, ".sim.") {
+					continue
+				}
+				if _, again := j.Files[n]; again && !e.IsDir() {
+					continue
+				}
+				os.RemoveAll(filepath.Join(w.dir, n))
 			}
 		}
 		w.files = map[string]bool{}
